@@ -160,7 +160,162 @@ def apply (d : Dot11) (op : List String) : Out Dot11 :=
           pure (addTagged d code val)
         else .throw .stdOther
 
-def fieldsWithDecoded (d : Dot11) : Fields := d.fields
+/-! ### decoders (`search_and_convert<T>` → `Converters::convert` / `T::from_option` / `RSNInformation::init`) -/
+
+/-- `search_option(type)`: the first option with that code -/
+def searchOption (os : List Opt) (code : Nat) : Option Opt := os.find? (fun o => o.code == code)
+
+def b (bs : Bytes) (i : Nat) : Nat := byteAt bs i
+
+/-- `convert<uint8_t>` -/
+def decodeU8 (d : Bytes) : Out Nat := if d.length != 1 then .throw .malformedOption else .ok (b d 0)
+/-- `convert<uint16_t>` with `Dot11::endianness = LE` -/
+def decodeU16 (d : Bytes) : Out Nat := if d.length != 2 then .throw .malformedOption else .ok (leAt d 0 2)
+/-- `convert<pair<uint8_t,uint8_t>>` -/
+def decodePair (d : Bytes) : Out (Nat × Nat) := if d.length != 2 then .throw .malformedOption else .ok (b d 0, b d 1)
+
+def pairsOf : Bytes → List (Nat × Nat)
+  | x :: y :: r => (x.toNat, y.toNat) :: pairsOf r
+  | _ => []
+
+/-- `convert<vector<pair<uint8_t,uint8_t>>>` -/
+def decodePairs (d : Bytes) : Out (List (Nat × Nat)) := if d.length % 2 != 0 then .throw .malformedOption else .ok (pairsOf d)
+
+/-- `convert<vector<float>>`: `float(byte & 0x7f) / 2`, reported in units of 0.5 Mbit/s -/
+def decodeRates (d : Bytes) : List Nat := d.map (fun x => x.toNat % 128)
+
+/-- `fh_params_set::from_option` -/
+def decodeFhSet (d : Bytes) : Out (Nat × Nat × Nat × Nat) :=
+  if d.length != 5 then .throw .malformedOption else .ok (leAt d 0 2, b d 2, b d 3, b d 4)
+/-- `cf_params_set::from_option` -/
+def decodeCfSet (d : Bytes) : Out (Nat × Nat × Nat × Nat) :=
+  if d.length != 6 then .throw .malformedOption else .ok (b d 0, b d 1, leAt d 2 2, leAt d 4 2)
+
+/-- the `while (ptr != end)` loop of `ibss_dfs_params::from_option`: a lone last byte is `malformed_option` -/
+def dfsPairs : Bytes → Out (List (Nat × Nat))
+  | [] => .ok []
+  | [_] => .throw .malformedOption
+  | x :: y :: r => (dfsPairs r) >>= fun ps => pure ((x.toNat, y.toNat) :: ps)
+
+/-- `ibss_dfs_params::from_option` (minimum size 9) -/
+def decodeIbssDfs (d : Bytes) : Out (Bytes × Nat × List (Nat × Nat)) :=
+  if d.length < 9 then .throw .malformedOption
+  else (dfsPairs (d.drop 7)) >>= fun ps => pure (d.take 6, b d 6, ps)
+
+def triplesOf : Bytes → List (Nat × Nat × Nat) × Bytes
+  | x :: y :: z :: r => let (ts, rest) := triplesOf r; ((x.toNat, y.toNat, z.toNat) :: ts, rest)
+  | r => ([], r)
+
+/-- `country_params::from_option` (minimum size 6): triplets while at least 3 bytes remain; what is left over must be
+    nothing, or the single pad byte the element carries when its length would otherwise be odd -/
+def decodeCountry (d : Bytes) : Out (Bytes × List (Nat × Nat × Nat)) :=
+  if d.length < 6 then .throw .malformedOption
+  else
+    let (ts, rest) := triplesOf (d.drop 3)
+    if !rest.isEmpty && !(rest.length == 1 && d.length % 2 == 0) then .throw .malformedOption
+    else .ok (d.take 3, ts)
+
+/-- `fh_pattern_type::from_option` (minimum size 4) -/
+def decodeFhPattern (d : Bytes) : Out (Nat × Nat × Nat × Nat × Bytes) :=
+  if d.length < 4 then .throw .malformedOption else .ok (b d 0, b d 1, b d 2, b d 3, d.drop 4)
+/-- `channel_switch_type::from_option` -/
+def decodeChannelSwitch (d : Bytes) : Out (Nat × Nat × Nat) :=
+  if d.length != 3 then .throw .malformedOption else .ok (b d 0, b d 1, b d 2)
+/-- `quiet_type::from_option` -/
+def decodeQuiet (d : Bytes) : Out (Nat × Nat × Nat × Nat) :=
+  if d.length != 6 then .throw .malformedOption else .ok (b d 0, b d 1, leAt d 2 2, leAt d 4 2)
+/-- `bss_load_type::from_option` -/
+def decodeBssLoad (d : Bytes) : Out (Nat × Nat × Nat) :=
+  if d.length != 5 then .throw .malformedOption else .ok (leAt d 0 2, b d 2, leAt d 3 2)
+/-- `tim_type::from_option` (at least 4 bytes) -/
+def decodeTim (d : Bytes) : Out (Nat × Nat × Nat × Bytes) :=
+  if d.length < 4 then .throw .malformedOption else .ok (b d 0, b d 1, b d 2, d.drop 3)
+/-- `vendor_specific()`: shorter than the OUI counts as "not there" -/
+def decodeVendor (d : Bytes) : Out (Bytes × Bytes) :=
+  if d.length < 3 then .throw .optionNotFound else .ok (d.take 3, d.drop 3)
+
+/-- `while (count--) add(stream.read_le<uint32_t>())` -/
+def readSuites : Nat → Cursor → Out (List Nat × Cursor)
+  | 0, c => pure ([], c)
+  | n + 1, c => do
+    let (v, c) ← c.readLE 4
+    let (vs, c) ← readSuites n c
+    pure (v :: vs, c)
+
+/-- `RSNInformation::from_option` + `RSNInformation::init` (note: `can_read(count)` checks the *count*, not
+    `4·count` bytes; the reads that follow are bounds-checked themselves) -/
+def decodeRsn (d : Bytes) : Out Rsn :=
+  if d.length < 8 then .throw .malformedOption
+  else do
+    let c := Cursor.ofBytes d
+    let (ver, c) ← c.readLE 2
+    let (grp, c) ← c.readLE 4
+    let (np, c) ← c.readLE 2
+    if !c.canRead np then .throw .malformedPacket else do
+    let (pw, c) ← readSuites np c
+    let (na, c) ← c.readLE 2
+    if !c.canRead na then .throw .malformedPacket else do
+    let (ak, c) ← readSuites na c
+    let (caps, _) ← c.readLE 2
+    pure ⟨ver, grp, pw, ak, caps⟩
+
+/-! ### canonical text of the typed getters (one entry per getter whose option is present) -/
+
+def us (xs : List Nat) : String := "_".intercalate (xs.map toString)
+def pairsStr (ps : List (Nat × Nat)) : String := if ps.isEmpty then "-" else ",".intercalate (ps.map (fun (a, c) => s!"{a}.{c}"))
+def listStr (xs : List Nat) : String := if xs.isEmpty then "-" else ",".intercalate (xs.map toString)
+def plusStr (xs : List Nat) : String := if xs.isEmpty then "-" else "+".intercalate (xs.map toString)
+
+def excStr (e : Exc) : String := "!" ++ e.name
+
+def showOut {α} (r : Out α) (f : α → String) : String :=
+  match r with
+  | .ok a => f a
+  | .throw e => excStr e
+  | .fault s => "!fault:" ++ s
+
+/-- (getter name, option code, text of the decoded value) in the order the harness prints them -/
+def typedEntries : List (String × Nat × (Bytes → String)) :=
+  [("rsn_information", RSN, fun d => showOut (decodeRsn d) (fun r => s!"{r.version}_{r.group}_{plusStr r.pairwise}_{plusStr r.akm}_{r.caps}")),
+   ("ssid", SSID, fun d => hexStr d),
+   ("supported_rates", SUPPORTED_RATES, fun d => listStr (decodeRates d)),
+   ("extended_supported_rates", EXT_SUPPORTED_RATES, fun d => listStr (decodeRates d)),
+   ("qos_capability", QOS_CAPABILITY, fun d => showOut (decodeU8 d) toString),
+   ("power_capability", POWER_CAPABILITY, fun d => showOut (decodePair d) (fun (x, y) => us [x, y])),
+   ("supported_channels", SUPPORTED_CHANNELS, fun d => showOut (decodePairs d) pairsStr),
+   ("request_information", REQUEST_INFORMATION, fun d => hexStr d),
+   ("fh_parameter_set", FH_SET, fun d => showOut (decodeFhSet d) (fun (w, x, y, z) => us [w, x, y, z])),
+   ("ds_parameter_set", DS_SET, fun d => showOut (decodeU8 d) toString),
+   ("cf_parameter_set", CF_SET, fun d => showOut (decodeCfSet d) (fun (w, x, y, z) => us [w, x, y, z])),
+   ("ibss_parameter_set", IBSS_SET, fun d => showOut (decodeU16 d) toString),
+   ("ibss_dfs", IBSS_DFS, fun d => showOut (decodeIbssDfs d) (fun (o, r, ps) => s!"{hexStr o}_{r}_{pairsStr ps}")),
+   ("country", COUNTRY, fun d => showOut (decodeCountry d) (fun (c, ts) =>
+      s!"{hexStr c}_" ++ (if ts.isEmpty then "-" else ",".intercalate (ts.map (fun (x, y, z) => s!"{x}.{y}.{z}"))))),
+   ("fh_parameters", HOPPING_PATTERN_PARAMS, fun d => showOut (decodePair d) (fun (x, y) => us [x, y])),
+   ("fh_pattern_table", HOPPING_PATTERN_TABLE, fun d => showOut (decodeFhPattern d) (fun (w, x, y, z, t) => us [w, x, y, z] ++ "_" ++ hexStr t)),
+   ("power_constraint", POWER_CONSTRAINT, fun d => showOut (decodeU8 d) toString),
+   ("channel_switch", CHANNEL_SWITCH, fun d => showOut (decodeChannelSwitch d) (fun (x, y, z) => us [x, y, z])),
+   ("quiet", QUIET, fun d => showOut (decodeQuiet d) (fun (w, x, y, z) => us [w, x, y, z])),
+   ("tpc_report", TPC_REPORT, fun d => showOut (decodePair d) (fun (x, y) => us [x, y])),
+   ("erp_information", ERP_INFORMATION, fun d => showOut (decodeU8 d) toString),
+   ("bss_load", BSS_LOAD, fun d => showOut (decodeBssLoad d) (fun (x, y, z) => us [x, y, z])),
+   ("tim", TIM, fun d => showOut (decodeTim d) (fun (x, y, z, bm) => us [x, y, z] ++ "_" ++ hexStr bm)),
+   ("challenge_text", CHALLENGE_TEXT, fun d => hexStr d),
+   ("vendor_specific", VENDOR_SPECIFIC, fun d => showOut (decodeVendor d) (fun (o, r) => s!"{hexStr o}_{hexStr r}"))]
+
+def typedStr (os : List Opt) : String :=
+  let items := typedEntries.filterMap (fun (name, code, f) =>
+    match searchOption os code with
+    | none => none
+    | some o =>
+      let v := f o.data
+      if v == "!option_not_found" then none else some s!"{name}:{v}")
+  if items.isEmpty then "-" else "|".intercalate items
+
+/-- getter dump of a Dot11 object; management frames also list what their typed option getters return -/
+def fieldsWithDecoded (d : Dot11) : Fields :=
+  d.fields ++ (if d.lay.tagged then [("typed", typedStr d.opts)] else [])
+
 
 end Tagged
 end Tins.Wire.Wifi
